@@ -7,6 +7,9 @@ for l in open(os.path.join(V, "seeded", "CONFIRMED.txt")):
     if l.startswith("C"):
         conf[l.split()[0]] = l.strip()
 HAND = {
+ "C02-b-regress-mix-event": dict(change="reverse of fix e1b86d8: QXmppMixManager::handlePubSubEvent takes constFirst() of the item list of a configuration/information event again",
+     needs="an event notification for a MIX config/info node that carries <items node=.../> with no <item/>, and an application that reads the object handed to it by the signal",
+     also=[]),
  "C16-b-regress-ns-escape": dict(change="reverse of fix ae28674: namespace URIs taken from parsed data are written with QXmlStreamWriter::writeDefaultNamespace() verbatim again",
      needs="a routed or re-serialized stanza whose child carries a namespace URI containing an (escaped) quote followed by markup; ordinary namespaces never contain one",
      also=["C02", "C01"]),
@@ -38,6 +41,6 @@ for d in sorted(os.listdir(os.path.join(V, "seeded"))):
         meta["result"] = json.load(open(rj))
     json.dump(meta, open(os.path.join(sd, "meta.json"), "w"), indent=1)
     r = meta.get("result", {})
-    first = (meta.get("change", "").split(". ")[0])[:150]
+    first = re.sub(r"```.*", "", meta.get("change", "")).split(". ")[0][:140]
     rows.append("| %s | %s | %s quick: exit %s, %s | `%s` |" % (d, first.replace("|", "/"), r.get("check", pid), r.get("exit", "?"), "%d violation lines" % r.get("violation_lines", 0), "`, `".join(s[:90] for s in r.get("signatures", [])[:2])))
 print("| seed | change (first sentence of the agent's notes) | result | signatures |\n|---|---|---|---|\n" + "\n".join(rows))
